@@ -98,7 +98,6 @@ Section Hist.
       + eexists. exact Hnew.
   Qed.
 
-  Hypothesis Hg : g_kind g = Ring \/ g_putfail0 g = false.
 
   Lemma expected_app l1 l2 : expected (l1 ++ l2) = expected l1 ++ expected l2.
   Proof. unfold expected. apply flat_map_app. Qed.
